@@ -404,7 +404,13 @@ def _dispatch(a):
     if a[0] == "gen":
         return check_generator(a[1:])
     if a[0] == "call":
-        r = C11.analyse("call", a[1])
+        if C11.representation_named():
+            r = C11.analyse("call", a[1])
+        else:
+            # state kept elsewhere than in _checksum / run_experiment: use the analysis that never looks at attributes
+            from vf.props import C11b
+            r = C11b.analyse("H1", a[1])
+            r["witnesses"] = [dict(w, kind="lifecycle_search") for w in r["witnesses"]]
         r["text"] = None
         return r
     raise ValueError(a[0])
